@@ -287,10 +287,24 @@ def h_recase(ntracks: int, t0: int, t1: int, t2: int, x0: int, lower: int, inden
             kw = kw.lower() if bits[i] else kw.capitalize() if indent == 1 else kw
             if kw.upper() == "FILE" and bits[i]:
                 rest = rest.replace("BINARY", "binary")
+            if kw.upper() == "TRACK":                      # the mode word is a keyword too: lower / Capitalised / mIXED like its line's keyword
+                num, mode = rest.split(" ", 1)
+                mode = mode.lower() if bits[i] else (mode.capitalize() if indent == 1 else (mode[0].lower() + mode[1:] if trail == 2 else mode))
+                rest = num + " " + mode
             var.append(["", " ", "\t  "][indent] + kw + ["", " ", "  \t"][trail] + " " + rest + ["", "  ", "\t"][trail])
         want = _meaning(base)
         got = _meaning(var)
-        return 1 if (want != "BAD" and got == want) else 0
+        if want == "BAD" or got != want:
+            return 0
+        # "the image produced from it is therefore the same": track windows of the CDDA image built from either sheet
+        from smpl_extract.cdda.image import CompactDiskAudioImageAdapter
+        from vf.props.c03 import _Sized
+
+        def windows(lines):
+            f = _Sized(40 * 1000 * 1000)
+            img = CompactDiskAudioImageAdapter.from_bin_cue(f, cs.parse_cue_sheet([ln + "\n" for ln in lines]))
+            return [(t.name, t._data_stream.offset, t._data_stream.end_of_file) for t in img.tracks]
+        return 1 if windows(var) == windows(base) and len(windows(base)) == ntracks else 0
 
 
 def h_reject(kind: int) -> int:
